@@ -41,6 +41,8 @@ CASE_VARIANTS = ["AMP", "LT", "Gt", "Apos", "QUOT", "aMp"]
 SITES = ["text", "attribute", "unused"]
 
 
+ALT_NS = {"vbox": ["http://www.innotek.de/VirtualBox-settings", "urn:other"],
+          "ovf": ["http://schemas.dmtf.org/ovf/envelope/2", "urn:other"], "pvs": ["urn:parallels:pvs"], "hdd": ["urn:parallels:hdd"]}
 SEQ_KINDS = ["plain", "undeclared-reference", "internal", "laughs", "external-file"]
 
 
@@ -150,6 +152,12 @@ def run_shard(shard, ctx):
                     for pad in ((0, 70000, 300000) if depth == 1 and site != "attribute" else (0,)):
                         run_case({"entry": shard["entry"], "family": fam, "depth": depth, "site": site, "handle": handle,
                                   "pad": pad}, ctx)
+                    if depth <= 2 and site == "text":
+                        # the same documents in another (older / newer / foreign) namespace: what such a document yields is not
+                        # specified here, that it is refused when it declares entities is
+                        for ns in ALT_NS[shard["entry"]]:
+                            run_case({"entry": shard["entry"], "family": fam, "depth": depth, "site": site, "handle": handle,
+                                      "pad": 0, "altns": ns}, ctx)
                     if shard["entry"] == "hdd" and depth <= 2:
                         # benign copies of the descriptor next to it (Parallels keeps DiskDescriptor.xml.Backup)
                         run_case({"entry": "hdd", "family": fam, "depth": depth, "site": site, "handle": handle, "pad": 0,
@@ -361,6 +369,14 @@ def run_case(case, ctx):
                 doc = doc.replace('<?xml version="1.0"?>', "", 1)
             else:
                 doc = doc.replace('<?xml version="1.0"?>', '<?xml version="1.0"?>' + ins, 1)
+        if case.get("altns"):
+            if entry == "vbox":
+                doc = doc.replace("http://www.virtualbox.org/", case["altns"])
+            elif entry == "ovf":
+                doc = doc.replace("http://schemas.dmtf.org/ovf/envelope/1", case["altns"])
+            else:
+                root = {"pvs": "<ParallelsVirtualMachine", "hdd": "<Parallels_disk_image"}[entry]
+                doc = doc.replace(root, root + f' xmlns:v="{case["altns"]}" v:legacy="1"', 1)
         if case.get("pad"):
             # a large document: harmless comment padding before the closing tag of the root element
             cut = doc.rindex("</")
@@ -396,6 +412,8 @@ def run_case(case, ctx):
                               {"result": repr(result)[:200], "depth": depth})
                 return
             ctx.outcome("refused")
+        elif case.get("altns") and entry in ("vbox", "ovf"):
+            ctx.outcome("refused" if exc is not None else "parsed")  # a document in another namespace: any answer, no access
         elif "leading" in (case.get("prolog") or "") and exc is not None:
             ctx.outcome("refused")  # not well-formed (text in front of the XML declaration): refusing the whole document is fine
         elif fam == "predefined-redeclared":
